@@ -20,6 +20,7 @@ type fileSnap struct {
 	Content []byte
 	Mtime   time.Time
 	Dir     bool
+	Link    string // target of a symbolic link ("" = not a link)
 }
 
 type snapshot map[string]fileSnap
@@ -33,6 +34,11 @@ func takeSnapshot(root string) snapshot {
 		rel, _ := filepath.Rel(root, p)
 		if info.IsDir() {
 			s[rel] = fileSnap{Dir: true, Mtime: info.ModTime()}
+			return nil
+		}
+		if info.Mode()&os.ModeSymlink != 0 {
+			target, _ := os.Readlink(p)
+			s[rel] = fileSnap{Link: target, Content: []byte("-> " + target)}
 			return nil
 		}
 		b, _ := os.ReadFile(p)
@@ -58,12 +64,19 @@ func (s snapshot) restore(root string) {
 			continue
 		}
 		os.MkdirAll(filepath.Dir(p), 0o755)
+		if f.Link != "" {
+			os.Symlink(f.Link, p)
+			continue
+		}
 		os.WriteFile(p, f.Content, 0o644)
 	}
 	// mtimes last (writing children changes directory mtimes); deepest first
 	sort.Slice(names, func(i, j int) bool { return len(names[i]) > len(names[j]) })
 	for _, n := range names {
 		f := s[n]
+		if f.Link != "" {
+			continue
+		}
 		os.Chtimes(filepath.Join(root, n), f.Mtime, f.Mtime)
 	}
 }
